@@ -94,6 +94,7 @@ def check(sc, obs):
     strategy = opts.get("connection_strategy", "eager")
     mode = sc["mode"]
     crash = tls_a.first_crash(obs)
+    crash_in_rejection_path = False
     judged = 0
     probes["mode_" + mode] += 1
     probes["trust_" + opts.get("trust", "file")] += 1
@@ -159,6 +160,8 @@ def check(sc, obs):
             continue
         expect_fail = (not flow_good) and not insecure
         if crash is not None:
+            if expect_fail:
+                crash_in_rejection_path = True
             continue
         http_mode = mode != "reverse_tls"
         if expect_fail:
@@ -201,8 +204,12 @@ def check(sc, obs):
                              "msg": f"flow {i}: upstream chain acceptable (insecure={insecure}, verdict {flow_reason}) but "
                                     f"{bad}; hooks={names}"})
     if crash is not None:
-        viol.append({"class": "crash", "key": {"where": crash["where"], "exc": crash["exc"], "mode": mode,
-                                               "strategy": strategy},
+        probes["crash_any"] += 1
+    if crash is not None and crash_in_rejection_path:
+        # a crash of the proxy while it handles a rejected upstream chain is not "the connection fails
+        # with an error"; crashes in runs without a rejection are somebody else's property
+        viol.append({"class": "crash_after_rejection",
+                     "key": {"where": crash["where"], "exc": crash["exc"], "mode": mode, "strategy": strategy},
                      "msg": crash["msg"]})
     return viol, probes, faults, judged > 0
 
